@@ -1,13 +1,129 @@
-//! Shared wiring for the well-formed-program streams (G-prog x G-layout), used by the
-//! properties that quantify over well-formed code.
+//! Shared wiring for the well-formed-program streams (G-prog x G-layout x G-comment), used by
+//! the properties that quantify over well-formed code.
 
 use crate::engine::*;
+use crate::gen::layout::{self, CommentPolicy, Gap, Style};
+use crate::gen::prog::{self, Opts, Prog};
+use crate::model::refscan;
 
-/// Streams of grammar-generated programs. `weight` scales the case counts.
-pub fn wf_streams(_tier: Tier, _weight: u64) -> Vec<Stream> {
-    vec![]
+pub struct Wf {
+    pub prog: Prog,
+    pub gaps: Vec<Gap>,
+    pub input: String,
+    pub style: Style,
 }
 
-pub fn wf_generate(_stream: &str, _t: &mut Tape, _gen_cfg: bool) -> Option<Case> {
-    None
+/// Streams of grammar-generated programs. `weight` scales the case counts.
+pub fn wf_streams(tier: Tier, weight: u64) -> Vec<Stream> {
+    let q = tier == Tier::Quick;
+    vec![
+        Stream::random("prog", weight * if q { 700 } else { 10000 }, 700),
+        Stream::random("progbig", weight * if q { 40 } else { 800 }, 4000),
+    ]
+}
+
+pub fn fuel_for(stream: &str) -> i32 {
+    match stream {
+        "progbig" => 600,
+        _ => 90,
+    }
+}
+
+/// Does `text` scan (reference scanner and the implementation's lexer) to exactly the lexemes?
+pub fn scans_to(text: &str, p: &Prog) -> bool {
+    let a = refscan::scan(text);
+    if a.len() != p.toks.len() + 1 {
+        return false;
+    }
+    for (t, x) in a.iter().zip(&p.toks) {
+        if t.kind != x.kind || t.text(text) != x.text {
+            return false;
+        }
+    }
+    let b = refscan::scan_impl(text);
+    a.len() == b.len()
+        && a.iter()
+            .zip(&b)
+            .all(|(x, y)| x.start == y.start && x.end == y.end && x.kind == y.kind)
+}
+
+pub fn build(t: &mut Tape, fuel: i32, opts: Opts, policy: Option<CommentPolicy>, style: Option<Style>) -> Option<Wf> {
+    let p0 = prog::gen_prog(t, fuel, opts);
+    if p0.toks.is_empty() {
+        return None;
+    }
+    let mut p0 = p0;
+    // letter case of keywords (the formatter lower-cases them)
+    match t.below(6) {
+        0 => {
+            for tok in p0.toks.iter_mut().filter(|x| x.kind == refscan::Kind::Keyword) {
+                tok.text = tok.text.to_ascii_uppercase();
+            }
+            p0.tags.insert("keywords:upper");
+        }
+        1 => {
+            for (i, tok) in p0.toks.iter_mut().enumerate().filter(|(_, x)| x.kind == refscan::Kind::Keyword) {
+                if i % 3 != 0 {
+                    let mut c = tok.text.chars();
+                    if let Some(f) = c.next() {
+                        tok.text = f.to_ascii_uppercase().to_string() + c.as_str();
+                    }
+                }
+            }
+            p0.tags.insert("keywords:capitalised");
+        }
+        _ => {}
+    }
+    let policy = policy.unwrap_or_else(|| *t.pick(&[CommentPolicy::None, CommentPolicy::LineEdges, CommentPolicy::Anywhere, CommentPolicy::LineEdges]));
+    let density = 6 + t.below(30);
+    let p = layout::insert_comments(&p0, t, policy, density);
+    let style = style.unwrap_or_else(|| *t.pick(&[Style::Pretty, Style::Pretty, Style::Wild, Style::Compact, Style::OneSpace]));
+    let mut gaps = layout::gen_layout(&p, t, style);
+    layout::own_line_fixup(&p, &mut gaps);
+    let input = layout::render(&p, &gaps);
+    if !scans_to(&input, &p) {
+        return None;
+    }
+    Some(Wf { prog: p, gaps, input, style })
+}
+
+pub fn ann_of(p: &Prog) -> Ann {
+    Ann {
+        lexemes: p.toks.iter().map(|t| t.text.clone()).collect(),
+        kinds: p.toks.iter().map(|t| t.kind as u8).collect(),
+        marks: p.marks.clone(),
+        tags: p.tags.iter().map(|s| s.to_string()).collect(),
+    }
+}
+
+pub fn case_of(wf: &Wf, cfg: Cfg, gen: &str) -> Case {
+    let mut c = Case::text(gen, wf.input.clone(), cfg);
+    c.ann = Some(ann_of(&wf.prog));
+    c.tags = wf.prog.tags.iter().map(|s| s.to_string()).collect();
+    c.tags.push(format!("style:{:?}", wf.style));
+    c
+}
+
+pub fn wf_generate(stream: &str, t: &mut Tape, gen_cfg: bool) -> Option<Case> {
+    if stream != "prog" && stream != "progbig" {
+        return None;
+    }
+    let cfg = if gen_cfg { Cfg::gen_unsaturated(t) } else { Cfg::default() };
+    let wf = build(t, fuel_for(stream), Opts::default(), None, None)?;
+    Some(case_of(&wf, cfg, stream))
+}
+
+/// Record the construct tags of a generated program in the class histogram.
+pub fn classes(case: &Case, ctx: &mut Ctx) {
+    for t in &case.tags {
+        ctx.class(&format!("tag:{t}"));
+    }
+    if let Some(a) = &case.ann {
+        ctx.class(match a.lexemes.len() {
+            0..=19 => "tokens:<20",
+            20..=99 => "tokens:20-99",
+            100..=499 => "tokens:100-499",
+            _ => "tokens:>=500",
+        });
+    }
 }
